@@ -702,3 +702,27 @@ def bitvector_programs():
 
 
 BITVECTOR_ARGS = [['0', '0'], ['1', '0'], ['2', '0']]
+
+
+def overload_arity_programs():
+    """overloads of one name that differ in ARITY (and in parameter types), declared in every order; calls whose arguments
+    need a coercion: the call goes to the overload with that many parameters, and every argument is evaluated once"""
+    import itertools
+    tick = Func('tick', [('k', INT, False)], INT, [W(S('t')), W(Var('k', INT)), Ret(Bin('+', Var('k', INT), _i(1)))])
+
+    def fam():
+        f1 = Func('ov', [('x', INT, False)], EMPTY, [W(S('<1:')), W(Var('x', INT)), W(S('>'))], tag='ov')
+        f2 = Func('ov', [('x', INT, False), ('y', INT, False)], EMPTY, [W(S('<2:')), W(Var('x', INT)), _mark(','), W(Var('y', INT)), W(S('>'))], tag='ov')
+        f3 = Func('ov', [('x', BYTE, False), ('y', INT, False), ('z', BOOL, False)], EMPTY,
+                  [W(S('<3:')), W(Cast(Var('x', BYTE), INT)), _mark(','), W(Var('y', INT)), _mark(','), W(Var('z', BOOL)), W(S('>'))], tag='ov')
+        f0 = Func('ov', [], EMPTY, [W(S('<0>'))], tag='ov')
+        return f0, f1, f2, f3
+    for perm in itertools.permutations(range(4)):
+        f = fam()
+        b = Var('b', BYTE)
+        body = [Decl('b', BYTE, Cast(arg(0), BYTE)),
+                ExprStmt(Call(f[2], [Lit(INT, 1), Lit(INT, 2)])), ExprStmt(Call(f[2], [b, Call(tick, [Lit(INT, 2)])])), ExprStmt(Call(f[1], [b])),
+                ExprStmt(Call(f[3], [b, b, Bin('>', arg(0), _i(1))])), ExprStmt(Call(f[0], [])), ExprStmt(Call(f[2], [Call(tick, [Lit(INT, 5)]), b])),
+                ExprStmt(Call(f[1], [Call(tick, [Lit(INT, 7)])])), ExprStmt(Call(f[3], [Lit(BYTE, 65), Call(tick, [Lit(INT, 9)]), Lit(BOOL, True)])), _mark('\n')]
+        main = Func('@is_you', [('v', Arr(INT, True), False)], EMPTY, body)
+        yield 'overload-arity/' + ''.join(str(i) for i in perm), Program([], [f[i] for i in perm] + [main, tick])
